@@ -3,7 +3,7 @@ import json
 import random
 import shutil
 
-from ..common import (REPO, WORK, Report, cbool, chex, clist, cstr, decide, load_findings, run_case_shards, run_impl,
+from ..common import (COQ, REPO, WORK, Report, coqc, cbool, chex, clist, cstr, decide, load_findings, run_case_shards, run_impl,
                       standard_proof_part, write_replay)
 from ..core_common import catom, cstate
 from .. import pddlgen as G
@@ -249,6 +249,8 @@ def shipped_inputs(tier):
     return out
 
 
+PAIR_WORLDS = []
+
 RAW_PLANS = [
     "", "\n", "()", "( )", "(a1)", "(act0)", "(act0 zz)", "0 : (act0 a1", "act0 a1)", "((act0 a1))", "(act0 (a1))",
     "; cost = 2 (unit cost)\n(act0 a1)", "+(act0 a1):(act0 a2)", "0 :(act0 a1) 1 :(act1 a2)", "(act0 a1)(act0 a1)(act0 a1)",
@@ -319,6 +321,29 @@ def build_inputs(rng, tier):
     walks = run_impl([{"op": "c15.walk", "domain_text": w["domain_text"], "problem_text": w["problem_text"],
                        "agents": w["agents"], "steps": w["steps"], "seed": w["walk_seed"], "switch": w["switch"]}
                       for w in worlds])
+    # small scope, enumerated: every valid two-action plan (different agents) of a few dense worlds, agent list in both
+    # orders: the two actions are exactly what the interference test compares
+    n_pair_worlds, cap = (1, 30) if tier == "quick" else (4, 150)
+    pair_worlds = []
+    for k in range(n_pair_worlds):
+        w, agents, items = gen_world(rng, numeric=(k % 2 == 0), n_agents=2 + k % 2, with_when=(k % 3 == 2), dense=True)
+        objs = agents + items
+        st = G.gen_state(rng, w, objs, density=0.5)
+        st["fluents"] = [(f, a, rng.choice(DYADIC)) for f, a, _ in st["fluents"]]
+        pair_worlds.append({"domain_text": G.render(w.domain_tree("ma"), rng, False),
+                            "problem_text": G.problem_text(w, objs, st, domain="ma"),
+                            "agents": [a for a, _ in agents], "features": sorted(w.features)})
+    pair_res = run_impl([{"op": "c15.pairs", "domain_text": w["domain_text"], "problem_text": w["problem_text"],
+                          "agents": w["agents"], "cap": cap, "seed": rng.randint(1, 10 ** 6)} for w in pair_worlds], nproc=min(4, len(pair_worlds)))
+    for w, pr in zip(pair_worlds, pair_res):
+        w["pairs_total"], w["pairs_used"] = pr.get("total", 0), len(pr.get("plans", []))
+        for plan in pr.get("plans", []):
+            text = "".join("%d : (%s)\n" % (i, " ".join(st)) for i, st in enumerate(plan))
+            for order in (w["agents"], list(reversed(w["agents"]))):
+                inputs.append({"kind": "pairs", "domain_text": w["domain_text"], "problem_text": w["problem_text"],
+                               "plan_text": text, "plan": plan, "agents": order, "flag": False, "features": w["features"],
+                               "style": "shipped"})
+    PAIR_WORLDS[:] = [{k: w[k] for k in ("features", "pairs_total", "pairs_used", "agents")} for w in pair_worlds]
     raw_world = None
     for w, wk in zip(worlds, walks):
         if "plan" not in wk:
@@ -352,6 +377,8 @@ def nontrivial(inp, res):
     """a plan of at least 3 actions by at least 2 agents whose conversion has a step with two members or fewer steps
     than actions refused"""
     plan = inp.get("plan")
+    if inp.get("kind") == "pairs":
+        return True
     if not plan or len(plan) < 3:
         return False
     return len({executor(inp["agents"], c) for c in plan}) >= 2
@@ -361,6 +388,17 @@ def run(args):
     rep = Report(PROP, args.tier, args.seed)
     shutil.rmtree(WORK / PROP / "replays", ignore_errors=True)
     standard_proof_part(rep, PROP)
+    # an extra theorem that depends on another property's spec file (Spec/Joint.v, C16): Proofs/C15_Reconcile.v proves that
+    # this property's non_interfering and C16's are the same decision procedure.  It is compiled here and reported, but
+    # kept out of Props/C15.v so that a change of the other file cannot break this check.
+    try:
+        r = coqc(COQ / "Proofs" / "C15_Reconcile.v", timeout=120)
+        rep.coverage["non_interference_equals_C16_spec"] = (r.returncode == 0)
+        if r.returncode != 0:
+            rep.notes.append("Proofs/C15_Reconcile.v (non_interfering_agree: Spec.JointPlan.fp_non_interfering = Spec.Joint.non_interfering) "
+                             "did not compile on this run: " + (r.stdout + r.stderr)[-300:])
+    except Exception as e:  # noqa
+        rep.coverage["non_interference_equals_C16_spec"] = "not compiled: %s" % e
     rng = random.Random(args.seed * 15485863 + 15)
     if args.replay:
         data = json.load(open(args.replay))
@@ -372,7 +410,16 @@ def run(args):
     f_ok = facts_ok(facts)
     jobs = [{"op": "c15.convert", "domain_text": i["domain_text"], "problem_text": i["problem_text"],
              "plan_text": i["plan_text"], "agents": i["agents"], "flag": i["flag"]} for i in inputs]
-    results = run_impl(jobs)
+    if args.tier == "thorough" and not args.replay:
+        results = [None] * len(jobs)
+        for hs in (0, 1, 2):
+            idx = [i for i in range(len(jobs)) if i % 3 == hs]
+            for i, r in zip(idx, run_impl([jobs[i] for i in idx], hashseed=hs)):
+                results[i] = r
+        hash_seeds = [0, 1, 2]
+    else:
+        results = run_impl(jobs)
+        hash_seeds = [0]
     cases = []
     for inp, res in zip(inputs, results):
         cases.append({"lit": case_lit(inp, res, cfg["epsilon"]),
@@ -429,8 +476,12 @@ def run(args):
                                                                        "none": interfering["-"]},
                                  "conversions_raised": raised,
                                  "flag_true": sum(1 for i in inputs if i["flag"]), "flag_false": sum(1 for i in inputs if not i["flag"])}
+    cov["enumerated_two_action_plans"] = {"worlds": PAIR_WORLDS,
+                                          "note": "every valid two-action plan with different executing agents from the initial state of each world "
+                                                  "(all of them when pairs_used == pairs_total, a random subset otherwise), agent list in both orders"}
     cov["constants_read_from_module"] = consts
     cov["numeric_config"] = cfg
+    cov["hash_seeds"] = hash_seeds
     cov["exhaustive"] = False
     cov["rule"] = ("generated typed domains with 2-4 agents (optionally a subtype of agent, a constant), 1-3 items, 0-2-ary predicates, STRIPS or numeric "
                    "(fluents g / f(agent) / v(item); comparisons, assign/increase/decrease), sometimes a conditional effect; every action's first parameter is its agent, "
@@ -438,7 +489,8 @@ def run(args):
                    "changing the agent; rendered in 7 plan-file layouts; each plan converted with and without the shared-object constraint, agent list in "
                    "declaration or shuffled order; plus the six plans shipped under tests/multi_agent_tests and raw plan texts (scanner / error paths; model "
                    "agreement only). Observed: the joint actions (structure and str()), the final states of the sequential and of the joint run by the library. "
-                   "Non-trivial: a plan of at least 3 actions executed by at least 2 agents; distinct by input hash.")
+                   "Plus every valid two-action plan (different agents) of a few dense worlds, agent list in both orders. "
+                   "Non-trivial: a plan of at least 3 actions executed by at least 2 agents, or an enumerated two-action plan; distinct by input hash.")
     cov["samples"] = [{"kind": c["input"]["case"]["kind"], "agents": c["input"]["case"]["agents"], "flag": c["input"]["case"]["flag"],
                        "plan_text": c["input"]["case"]["plan_text"][:300],
                        "joint": (c["input"]["implementation"]["joint"] or {}).get("text", "raised")}
